@@ -214,6 +214,8 @@ def concrete_iter(ctx, it, must=False):
             return [k for k, _ in s["v"].values()]
         if it.kind == "iter":
             return list(s["v"])
+        if it.kind == "ext" and hasattr(s["model"], "iterate"):
+            return s["model"].iterate(ctx, it)      # a (lazy) python iterator written in the sidecar, e.g. a database cursor that moves as it is iterated
     if must:
         raise Undecided("iteration over symbolic %r" % (it,))
     return None
